@@ -355,7 +355,7 @@ func gen(g *fw.Gen) {
 			}
 		}
 	}
-	for j, s := range []string{"", "m", "m/", "/", "m//0", "0/", "m/m/0", "H", "'", "m/'", "m/H", "mm", "M", "m/0/1/2/3/4/5/6/7/8/9/10/11/12/13/14/15/16/17/18/19/20"} {
+	for j, s := range []string{"", "m", "m/", "/", "m//0", "0/", "m/m/0", "m/m", "m/m/", "m/m/m", "mm/0", "m/0/m", "H", "'", "m/'", "m/H", "mm", "M", "m/0/1/2/3/4/5/6/7/8/9/10/11/12/13/14/15/16/17/18/19/20"} {
 		if g.Own(j) {
 			g.Emit("parse", []byte(s))
 		}
